@@ -802,6 +802,9 @@ class ParentProc:
     name = "MainProcess"
     daemon = False
     dead = False
+    pid = 999
+    pid_ = 999
+    exitcode = None
 
     def __init__(self):
         self.feeders = []
